@@ -179,7 +179,7 @@ def step (line : String) : String :=
   | "wrap" :: v :: backend :: dir :: a :: g :: t :: calls =>
     match parseNat? a, parseNat? g, parseNat? t, calls.mapM parseCall with
     | some a, some g, some t, some calls =>
-      if (v = "new" ∨ v = "old") ∧ (dir = "c" ∨ dir = "d") then runWrap (v = "old") backend (dir = "c") ⟨a, g, t⟩ calls
+      if (v = "new" ∨ v = "old" ∨ v = "big") ∧ (dir = "c" ∨ dir = "d") then runWrap (v = "old") backend (dir = "c") ⟨a, g, t⟩ calls
       else "bad-op"
     | _, _, _, _ => "bad-op"
   | ["magic", h] => match fromHex h with
